@@ -1,6 +1,83 @@
-From Coq Require Import List String.
-From GinV Require Import Model.Values Model.Gin.
+(* C15 — skip_unknown drops exactly the statements that target unknown names.
+   Model: Model/Stmt.v (should_skip = _should_skip, apply_stmts, make_reference).  Proved here:
+     - the decision: a known configurable is never skipped; skip_unknown=False skips nothing; a list skips
+       exactly the listed unknown names; True skips every unknown name;
+     - exactly deletion: applying a statement list with skip_unknown equals applying the list from which
+       the covered statements (bindings / blocks whose target is unknown and covered, imports of missing
+       modules) were deleted — and when every remaining target is known, equals applying that reduced
+       list with skipping switched off;
+     - an unknown target that the list does not cover is still a ValueError (located at the statement);
+     - references: an unknown, covered reference inside an applied binding is kept as the placeholder
+       'Unk' (never dropped, never resolved to something else); a known one resolves to its configurable;
+       an uncovered unknown one is a ValueError.
+   The behaviour of a placeholder when USED (call time / finalize) is the gin machine's: see C11/C12 and
+   the independent predicates of harness/props/c15.py. *)
+From Coq Require Import List String ZArith Bool Arith.
+From GinV Require Import Lib.Out Lib.PyStr Model.SelectorMap Model.Parser Model.Stmt Model.StmtSpec Proofs.StmtProofs Proofs.StmtProofs2.
 Import ListNotations.
-Theorem C15_placeholder : prefixes [1;2] = [[]; [1]; [1;2]].
-Proof. reflexivity. Qed.
-Print Assumptions C15_placeholder.
+Open Scope string_scope.
+Open Scope list_scope.
+
+Theorem C15_known_never_skipped : forall s sel sk, sm_matching (to_key sel) (t_reg s) <> [] -> should_skip s sel sk = false.
+Proof. exact StmtProofs2.C15_known_never_skipped. Qed.
+Theorem C15_skip_false : forall s sel, should_skip s sel SkFalse = false.
+Proof. exact StmtProofs2.C15_skip_false. Qed.
+Theorem C15_skip_list : forall s sel l, sm_matching (to_key sel) (t_reg s) = [] -> should_skip s sel (SkList l) = str_in sel l.
+Proof. exact StmtProofs2.C15_skip_list. Qed.
+Theorem C15_skip_true : forall s sel, sm_matching (to_key sel) (t_reg s) = [] -> should_skip s sel SkTrue = true.
+Proof. exact StmtProofs2.C15_skip_true. Qed.
+
+(* exactly deletion (include-free statement lists; includes are handled by C14) *)
+Theorem C15_reduce_equiv : forall env sk fname inc stmts s im ic,
+  forallb (fun st => negb (is_include st)) stmts = true ->
+  apply_stmts env sk fname inc stmts s im ic =
+  apply_stmts env sk fname inc (filter (fun st => negb (covered_env env s sk st)) stmts) s im ic.
+Proof. exact StmtProofs2.C15_reduce_equiv_imports. Qed.
+
+Theorem C15_reduce_equiv_skfalse : forall env sk fname inc stmts s im ic,
+  forallb (fun st => negb (is_include st)) stmts = true ->
+  forallb (targets_known env s) (filter (fun st => negb (covered_env env s sk st)) stmts) = true ->
+  apply_stmts env sk fname inc stmts s im ic =
+  apply_stmts env SkFalse fname inc (filter (fun st => negb (covered_env env s sk st)) stmts) s im ic.
+Proof. exact StmtProofs2.C15_reduce_equiv_skfalse. Qed.
+
+Theorem C15_known_targets_skip_irrelevant : forall env sk fname inc stmts s im ic,
+  forallb (fun st => negb (is_include st)) stmts = true -> forallb (targets_known env s) stmts = true ->
+  apply_stmts env sk fname inc stmts s im ic = apply_stmts env SkFalse fname inc stmts s im ic.
+Proof. exact StmtProofs2.C15_known_targets_skip_irrelevant. Qed.
+
+(* not covered: still an error, raised at that statement, nothing after it applied *)
+Theorem C15_uncovered_unknown_errors : forall env sk fname inc sc sel arg v line rest s im ic,
+  arg <> "" -> should_skip s sel sk = false -> sm_get_match (to_key sel) (t_reg s) = MNone -> t_locked s = false ->
+  apply_stmts env sk fname inc (SBind sc sel arg v line :: rest) s im ic = (s, SErr (SEOther "ValueError" [(fname, line)])).
+Proof. exact StmtProofs2.C15_uncovered_unknown_errors_exact. Qed.
+Theorem C15_uncovered_unknown_block_errors : forall env sk fname inc sc sel line rest s im ic,
+  should_skip s sel sk = false -> sm_get_match (to_key sel) (t_reg s) = MNone ->
+  apply_stmts env sk fname inc (SBlock sc sel line :: rest) s im ic = (s, SErr (SEOther "ValueError" [(fname, line)])).
+Proof. exact StmtProofs2.C15_uncovered_unknown_block_errors. Qed.
+
+(* references inside applied bindings *)
+Theorem C15_placeholder_kept : forall s sk scoped ev, should_skip s (last_slash scoped) sk = true ->
+  make_reference s sk scoped ev = SOk (OT "Unk" [OS (last_slash scoped); OB ev]).
+Proof. exact StmtProofs2.C15_placeholder_kept. Qed.
+Theorem C15_known_reference_resolved : forall s sk scoped ev k c,
+  sm_get_match (to_key (last_slash scoped)) (t_reg s) = MOne k (Some c) ->
+  make_reference s sk scoped ev = SOk (OT "Ref" [OL (map OS (removelast (split_slash scoped))); OS (cs_sel c); OB ev]).
+Proof. exact StmtProofs2.C15_known_reference_resolved. Qed.
+Theorem C15_unknown_reference_errors : forall s sk scoped ev,
+  should_skip s (last_slash scoped) sk = false -> sm_get_match (to_key (last_slash scoped)) (t_reg s) = MNone ->
+  make_reference s sk scoped ev = SErr (SEOther "ValueError" []).
+Proof. exact StmtProofs2.C15_unknown_reference_errors. Qed.
+
+Print Assumptions C15_known_never_skipped.
+Print Assumptions C15_skip_false.
+Print Assumptions C15_skip_list.
+Print Assumptions C15_skip_true.
+Print Assumptions C15_reduce_equiv.
+Print Assumptions C15_reduce_equiv_skfalse.
+Print Assumptions C15_known_targets_skip_irrelevant.
+Print Assumptions C15_uncovered_unknown_errors.
+Print Assumptions C15_uncovered_unknown_block_errors.
+Print Assumptions C15_placeholder_kept.
+Print Assumptions C15_known_reference_resolved.
+Print Assumptions C15_unknown_reference_errors.
